@@ -43,6 +43,9 @@ def strategy_impl(draw, tier, nonreversed=False):
         "boundary": draw(st.sampled_from(["fill", "extend", "periodic"])),
         "fill": draw(gen.fill_values),
         "bsrc": draw(st.sampled_from(["grid", "call"])),
+        # listing order of the faces / axes in the face_connections dictionaries (must not matter)
+        "face_order": list(draw(st.permutations(list(range(Kx * Ky))))),
+        "reverse_axes": draw(st.booleans()),
     }
 
 
@@ -100,7 +103,7 @@ def check(case, ctx):
     if case["bsrc"] == "grid":
         kw = {"boundary": case["boundary"], "fill_value": case["fill"]}
     has_links = any(l is not None for per in table.values() for sides in per.values() for l in sides)
-    fc = gen.table_to_xgcm(table_json(table)) if has_links else None
+    fc = gen.table_to_xgcm(table_json(table), face_order=case.get("face_order"), reverse_axes=case.get("reverse_axes", False)) if has_links else None
     grid = must_return("Grid construction", Grid, ds, coords=gc, face_connections=fc, autoparse_metadata=False, periodic=False, **kw)
     base_dims = ["face"] + [e[0] for e in case["extra"]] + ["yc", "xc"]
     da = xr.DataArray(A, dims=base_dims).transpose(*case["dims"])
@@ -131,4 +134,6 @@ def check(case, ctx):
     classes += sorted("link:" + k for k in kinds)
     if not has_links:
         classes.append("no-links")
+    if case.get("face_order") and list(case["face_order"]) != sorted(case["face_order"]):
+        classes.append("faces-listed-out-of-order")
     return {"nontrivial": bool((nf >= 2 or special) and crossed > 0 and nonconst), "classes": classes}
